@@ -334,7 +334,9 @@ func (w *W) mergePhi(fr *frame, phi *ssa.Phi, x *ssa.BasicBlock, edges []edge) V
 			acc, first = v, false
 			continue
 		}
+		w.narrowMerge = true
 		m, ok := w.mergeVal(e.g, v, acc)
+		w.narrowMerge = false
 		if !ok {
 			panic(mergeAbort{"unmergeable phi"})
 		}
@@ -389,7 +391,9 @@ func (w *W) callMerged(fn *ssa.Function, args []Value) Value {
 	}
 	acc := rets[len(rets)-1].v
 	for i := len(rets) - 2; i >= 0; i-- {
+		w.narrowMerge = true
 		m, ok := w.mergeVal(rets[i].g, rets[i].v, acc)
+		w.narrowMerge = false
 		if !ok {
 			panic(mergeAbort{"unmergeable results"})
 		}
